@@ -169,6 +169,15 @@ def oracle(case, impl, regs, everything_names):
     req = [n for n, _ in rec]
     if len(prof) != len(everything_names) or [p[0] for p in prof] != everything_names:
         return [("ingested_profile_names_differ", {"profile": prof})]
+    if sel in (0, 1):
+        # "under the shipped default profile": without -P the profile in force is the shipped one the command line selects
+        # (default.json, or torch_minimal.json with --tb) - read here straight from the file, whatever ran before
+        shipped = shipped_profile("torch_minimal.json" if sel == 1 else "default.json", everything_names)
+        if shipped is not None and [list(x) for x in prof] != shipped:
+            return [("profile_in_force_is_not_the_one_the_command_line_selects",
+                     {"expected": "flags of " + ("torch_minimal.json" if sel == 1 else "default.json"),
+                      "observed_disabled": [n for n, f in prof if not f][:6],
+                      "history": "earlier Acelyzer objects of this process (e.g. one built with --tb)"})]
     if all(f for _, f in prof):
         if req != stages:
             return [("requested_stage_skipped_under_all_enabled_profile",
@@ -190,6 +199,31 @@ def oracle(case, impl, regs, everything_names):
                  {"expected": expect, "observed": stages,
                   "missing": [n for n in expect if n not in stages], "extra": [n for n in stages if n not in expect]})]
     return []
+
+
+_SHIPPED = {}
+
+
+def shipped_profile(fname, everything_names):
+    """[[name, flag]] of a shipped profile, by the documented rule (entries of everything.json in order; a profile file
+    lists the enabled ones as {name: true}, matched forward) - computed from the JSON files, not through StageProfile"""
+    if fname not in _SHIPPED:
+        try:
+            d = json.load(open(os.path.join(coqrun.REPO, "src/aiu_trace_analyzer/profiles", fname)))
+            if len(d) == 0:         # an empty profile means: everything enabled
+                d = json.load(open(os.path.join(coqrun.REPO, "src/aiu_trace_analyzer/profiles/everything.json")))
+            want = [(k, bool(v)) for e in d["stages"] for k, v in e.items()]
+            out, j = [], 0
+            for n in everything_names:
+                if j < len(want) and want[j][0] == n:
+                    out.append([n, want[j][1]])
+                    j += 1
+                else:
+                    out.append([n, False])
+            _SHIPPED[fname] = out if j == len(want) else None
+        except Exception:  # noqa: BLE001
+            _SHIPPED[fname] = None
+    return _SHIPPED[fname]
 
 
 def is_full_enabled(sel, custom, everything):
@@ -387,6 +421,11 @@ def replay(ctx, payload):
     cwd = os.getcwd()
     os.chdir(work)
     try:
+        if f.get("signature", {}).get("kind") == "profile_in_force_is_not_the_one_the_command_line_selects":
+            try:        # the history the finding names: an object built with --tb earlier in this process
+                run_impl(["-i", "dummy.json", "--tb"], 1, [], work, ana["atoms"])
+            except (SystemExit, Exception):  # noqa: BLE001
+                pass
         impl = run_impl(argv, f["input"]["profile_sel"], custom, work, ana["atoms"])
         fl = oracle((argv, f["input"]["profile_sel"], custom), impl, ana["regs"], [n for n, _ in everything])
     finally:
